@@ -166,6 +166,53 @@ theorem rollback_discards_exactly_uncommitted : Statement_rollback_discards_exac
         (Op.commit :: ws.map Op.write ++ [.rollback]) ++ [.commit] := by simp
     rw [this, run_append, key, run_cons, step_commit (by simp [hro]), commit_commit]; rfl
 
+/-- NO IMPLICIT FLUSH: with autocommit off a transaction of ANY length (1 000, 1 024, 4 096 … writes) stays queued —
+    the endpoint is untouched until `commit()` / a non-dirty read, and `rollback()` then discards all of it.  (The store
+    has no batch size: `_transaction()` only returns the list.) -/
+def Statement_long_transaction_stays_queued : Prop :=
+  ∀ (r : Remote) (ws : List Write), r.autocommit = false → r.readOnly = false →
+    (r.run (ws.map Op.write)).ep = r.ep ∧
+    (r.run (ws.map Op.write)).edits.length = r.edits.length + (ws.flatMap (queuedBy r.hook)).length ∧
+    (r.run (ws.map Op.write ++ [.rollback])).ep = r.ep ∧ (r.run (ws.map Op.write ++ [.rollback])).edits = []
+
+theorem long_transaction_stays_queued : Statement_long_transaction_stays_queued := by
+  intro r ws hac hro
+  have h := run_writes_edits ws r hac hro
+  refine ⟨by rw [h], by rw [h]; simp, ?_, ?_⟩
+  · rw [run_append, h, run_cons, step_rollback (by exact hro)]; rfl
+  · rw [run_append, h, run_cons, step_rollback (by exact hro)]; rfl
+
+/-- `add_graph` keeps NO memory of graphs it created: whatever happened before (the creation rolled back, the graph
+    dropped by a caller's `DROP GRAPH`, by another client …) the call queues `CREATE GRAPH <g>` again, and after
+    create / rollback / create / commit the (empty) graph exists at the endpoint. -/
+def Statement_add_graph_resends_create : Prop :=
+  (∀ (hook : Bool) (n : Nat), compileWrite hook (.addGraph n) = some [[.createGraph n]]) ∧
+  (∀ (r : Remote) (n : Nat), r.autocommit = false → r.readOnly = false →
+    n ∈ (r.run [.commit, .write (.addGraph n), .rollback, .write (.addGraph n), .commit]).ep.graphs) ∧
+  (∀ (r : Remote) (n : Nat), r.autocommit = false → r.readOnly = false →
+    n ∈ (r.run [.write (.addGraph n), .write (.removeGraph (some n)), .write (.addGraph n), .commit]).ep.graphs)
+
+theorem add_graph_resends_create : Statement_add_graph_resends_create := by
+  refine ⟨fun _ _ => rfl, ?_, ?_⟩
+  · intro r n hac hro
+    have key := (rollback_discards_exactly_uncommitted r [.addGraph n] hac hro).1
+    have e : ([.commit, .write (.addGraph n), .rollback, .write (.addGraph n), .commit] : List Op) =
+        (Op.commit :: [Write.addGraph n].map Op.write ++ [.rollback]) ++ [.write (.addGraph n), .commit] := rfl
+    have hc : r.run [.commit] = r.commit := by rw [run_cons, step_commit hro]; rfl
+    rw [e, run_append, key, hc]
+    have hro' : r.commit.readOnly = false := by rw [commit_eq]; exact hro
+    have hac' : r.commit.autocommit = false := by simp [hac]
+    have h := run_writes_edits [.addGraph n] r.commit hac' hro'
+    have e2 : ([.write (.addGraph n), .commit] : List Op) = [Write.addGraph n].map Op.write ++ [.commit] := rfl
+    rw [e2, run_append, h, run_cons, step_commit (by exact hro')]
+    simp [Remote.run, queuedBy, compileWrite, applyEdits, applyOps, UOp.apply]
+  · intro r n hac hro
+    have h := run_writes_edits [.addGraph n, .removeGraph (some n), .addGraph n] r hac hro
+    have e2 : ([.write (.addGraph n), .write (.removeGraph (some n)), .write (.addGraph n), .commit] : List Op) =
+        [Write.addGraph n, .removeGraph (some n), .addGraph n].map Op.write ++ [.commit] := rfl
+    rw [e2, run_append, h, run_cons, step_commit (by exact hro)]
+    simp [Remote.run, queuedBy, compileWrite, applyEdits, applyOps, UOp.apply]
+
 theorem dirty_read_sees_old : Statement_dirty_read_sees_old := by
   intro r rd hac hd hro
   simp [Remote.step, Remote.preRead, hac, hd, hro]
